@@ -317,7 +317,7 @@ func ruleC13_3(c *Ctx) {
 		if org(has.Common().Args[0]) == "fv:visitedSymlinks" && org(has.Common().Args[1]) == "p0" {
 			for _, cu := range condUsers(has.Value(), false) {
 				tb := branchTaken(cu, true)
-				if r, ok := tb.Instrs[len(tb.Instrs)-1].(*ssa.Return); ok && strings.Contains(org(r.Results[0]), "ErrSymCycle") {
+				if r, ok := tb.Instrs[len(tb.Instrs)-1].(*ssa.Return); ok && len(r.Results) == 1 && (strings.Contains(org(r.Results[0]), "ErrSymCycle") || isCycleError(r.Results[0])) {
 					okCyc = rec != nil && c.condAt(has.Value(), false, rec.Block())
 				}
 			}
@@ -642,7 +642,7 @@ func ruleC13_5(c *Ctx) {
 	// appended only where the hash objects differ
 	if okDiff {
 		okDiff = false
-		for _, de := range callsIn(f, "reflect.DeepEqual") {
+		for _, de := range c.equalityCalls(f) {
 			for _, r := range c.nilErrReturns(f) {
 				derives(r.Results[2], func(v ssa.Value) bool {
 					if k, ok := v.(*ssa.Call); ok && calleeName(k) == "builtin:append" && c.condAt(de.Value(), false, k.Block()) {
@@ -1085,4 +1085,44 @@ func (c *Ctx) elemOfKeyList(v ssa.Value, at ssa.Instruction) (ssa.Value, string)
 		return c.keyListOf(ix.X, ix)
 	}
 	return nil, ""
+}
+
+// isCycleError: a freshly built error value whose type reports itself as ErrSymCycle through an Is method (a wrapper that
+// adds the offending path to the sentinel).
+func isCycleError(v ssa.Value) bool {
+	mi, ok := v.(*ssa.MakeInterface)
+	if !ok {
+		return false
+	}
+	ms := curProg.SSA.MethodSets.MethodSet(mi.X.Type())
+	sel := ms.Lookup(nil, "Is")
+	if sel == nil {
+		for i := 0; i < ms.Len(); i++ {
+			if ms.At(i).Obj().Name() == "Is" {
+				sel = ms.At(i)
+			}
+		}
+	}
+	if sel == nil {
+		return false
+	}
+	is := curProg.SSA.MethodValue(sel)
+	if is == nil || is.Blocks == nil {
+		return false
+	}
+	// every return is  target == ErrSymCycle  (possibly or-ed with other tests)
+	found := false
+	for _, r := range returnsOf(is) {
+		ok := derives(r.Results[0], func(x ssa.Value) bool {
+			b, isB := x.(*ssa.BinOp)
+			if !isB || b.Op != token.EQL {
+				return false
+			}
+			return strings.Contains(org(b.X), "ErrSymCycle") || strings.Contains(org(b.Y), "ErrSymCycle")
+		}, false)
+		if ok {
+			found = true
+		}
+	}
+	return found
 }
